@@ -174,6 +174,46 @@ FAMILIES = {
         depth=51),
 }
 
+THR_GRAPH = {
+    "a": M(r1=R("b"), r2=R("c"), r3=R("d"), x=P("1")),
+    "b": M(r1=R("e"), r2=R("f")),
+    "c": M(r1=R("e")),
+    "d": C(R("e"), R("g"), R("b")),
+    "e": M(z=P("1")),
+    "f": M(back=R("a")),
+    "g": NF,
+}
+
+for _lim in (1, 2):
+    FAMILIES["thr-ref%d" % _lim] = dict(
+        cfg=dict(family="thr-ref%d" % _lim, resources=THR_GRAPH, referenceThrottle=_lim),
+        consts=dict(
+            Conns=TSet(["c1", "c2"]), Vers=TSet(["latest"]),
+            Rids=TSet(["a", "b", "d", "f"]), CallRids=TSet(["a"]), ResRids=TSet(["a", "d"]),
+            Names=TSet(["a", "b", "d", "e"]), Keys=TSet(["r1", "r4", "x"]),
+            Vals=TSet([P("1"), R("b"), R("d"), R("f"), R("g"), X]),
+            AccessOuts=TSet(["ok", "ok", "deny", "timeout"]), GetOuts=TSet(["ok", "ok", "ok", "notFound", "timeout"]),
+            CallOuts=TSet(["ok", "res"]), QueryOuts=TSet(["full"]),
+            Tokens=TSet(['"t1"']), Patterns=TSet([[]]),
+            Features=TSet(["unsub", "get", "call", "events", "custom", "close", "quiesce"]),
+            Weights=["int", "int", "int", "int", "reply", "reply", "reply", "reply", "cli", "cli", "svc", "misc"],
+            MaxSteps=50),
+        depth=51)
+    FAMILIES["thr-reset%d" % _lim] = dict(
+        cfg=dict(family="thr-reset%d" % _lim, resources=THR_GRAPH, resetThrottle=_lim),
+        consts=dict(
+            Conns=TSet(["c1", "c2", "c3"]), Vers=TSet(["latest"]),
+            Rids=TSet(["a", "b", "d", "e"]), CallRids=TSet(["a"]), ResRids=TSet(["e"]),
+            Names=TSet(["a", "b", "d", "e"]), Keys=TSet(["x", "z"]),
+            Vals=TSet([P("1"), P("2"), X]),
+            AccessOuts=TSet(["ok", "ok", "deny", "timeout"]), GetOuts=TSet(["ok", "ok", "notFound", "timeout", "err"]),
+            CallOuts=TSet(["ok"]), QueryOuts=TSet(["full"]),
+            Tokens=TSet(['"t1"', '"t2"']), Patterns=TSet([[], [">"], ["a", "b"], ["*"], ["e"], ["a", ">"]]),
+            Features=TSet(["unsub", "events", "custom", "reset", "mutate", "token", "reaccess", "close", "quiesce"]),
+            Weights=["int", "int", "int", "int", "reply", "reply", "reply", "reply", "cli", "trig", "trig", "svc", "misc"],
+            MaxSteps=50),
+        depth=51)
+
 CONST_ORDER = ["Conns", "Vers", "Rids", "CallRids", "ResRids", "Names", "Keys", "Vals", "AccessOuts", "GetOuts",
                "CallOuts", "QueryOuts", "Tokens", "Patterns", "Features", "Weights", "MaxSteps"]
 
